@@ -852,3 +852,95 @@ Proof.
     rewrite <- mask_sel_app by (rewrite !firstn_length_le by lia; reflexivity).
     rewrite !firstn_skipn. reflexivity.
 Qed.
+
+(* a sensor that is categorical in some parts and a plain array in others is outside the domain; otherwise the
+   concatenated cache always answers *)
+Definition mixed_kinds (name : Z) (ps : list part) : bool :=
+  let xs := map (fun p => find_sens name (p_sens p)) ps in existsb is_cat xs && existsb is_num xs.
+
+Lemma sensor_answers : forall ps name ar, Forall (sens_ok name) ps -> mixed_kinds name ps = false ->
+  get_sensor ps name ar <> RFail.
+Proof.
+  intros ps name ar OK MX. unfold get_sensor, mixed_kinds in *.
+  set (xs := map (fun p => find_sens name (p_sens p)) ps) in *.
+  destruct (forallb is_absent xs) eqn:A; [discriminate|].
+  destruct (existsb is_cat xs) eqn:C; [|discriminate].
+  cbn [andb] in MX. rewrite MX.
+  assert (D : exists dt, cat_dtype xs = Some dt).
+  { unfold cat_dtype. apply existsb_exists in C. destruct C as (o & Ho & Io).
+    destruct (flat_map _ xs) as [|dt r] eqn:E; [|eauto]. exfalso.
+    destruct o as [[|dt c]|]; try discriminate.
+    assert (In dt (flat_map (fun o => match o with Some (SCat dt _) => [dt] | _ => [] end) xs)).
+    { apply in_flat_map. exists (Some (SCat dt c)). split; [exact Ho|left; reflexivity]. }
+    rewrite E in H. destruct H. }
+  destruct D as (dt & ->).
+  set (pieces := map (fun nx => cat_piece (dummy_code dt) (fst nx) (snd nx)) (combine (map nT ps) xs)).
+  assert (F : Forall2 cd_ok (map nT ps) pieces).
+  { unfold pieces, xs. clear -OK. induction OK as [|p ps (P & H) _ IH]; simpl; constructor; [|exact IH].
+    unfold cat_piece. destruct (find_sens name (p_sens p)) as [[fl l|dt' c0]|] eqn:E.
+    - apply dummy_cd_facts; exact P.
+    - exact (H dt' c0 eq_refl).
+    - apply dummy_cd_facts; exact P. }
+  destruct (zcat_some pieces ar) as (c & ->); [| |discriminate].
+  - intro X. rewrite X in F. inversion F as [E|]. symmetry in E. apply map_eq_nil in E. subst ps. cbn in A. discriminate.
+  - intros q Hq. destruct (F2_in_r _ _ _ q F Hq) as (n & _ & Hn). apply Hn.
+Qed.
+
+(* ... on the opened concatenation (the rewritten parts keep their sensors and dump counts) *)
+Theorem sensor_expand_open : forall input ps m name ar,
+  sort_parts input = Some ps -> Forall part_ok ps -> concat_open input = COk m -> Forall (sens_ok name) ps ->
+  match get_sensor (m_parts m) name ar with
+  | RNum l => spec_sensor ps name = Some l
+  | RCat c => spec_sensor ps name = Some (zexpand c) /\ cd_ok (list_sum (map nT ps)) c
+  | RKeyError => spec_sensor ps name = None
+  | RFail => mixed_kinds name ps = true
+  end.
+Proof.
+  intros input ps m name ar E OK H SO. pose proof (concat_open_facts input ps m E OK H) as O.
+  destruct (get_sensor_ext (m_parts m) ps name ar (op_sens _ _ O) (op_nT _ _ O)) as (G & _). rewrite G.
+  pose proof (sensor_expand ps name ar SO) as X. pose proof (sensor_answers ps name ar SO) as Y.
+  destruct (get_sensor ps name ar); try exact X.
+  destruct (mixed_kinds name ps); [reflexivity|]. exfalso. apply Y; reflexivity.
+Qed.
+
+(* the statement of C19_concat_expand *)
+Lemma concat_expand_all : forall input ps m,
+  sort_parts input = Some ps -> Forall part_ok ps -> concat_open input = COk m ->
+  let N := list_sum (map nT ps) in
+  map p_start (m_parts m) = map p_start ps /\ m_segs m = segs_of (map nT ps) /\
+  m_ts m = spec_ts ps /\
+  m_subs m = spec_uniq p_sub ps /\ m_spws m = spec_uniq p_spw ps /\ m_cat m = spec_uniq p_tgt ps /\
+  (exists c, m_sub m = Some c /\ cd_ok N c /\ zexpand c = spec_plain p_sub ps) /\
+  (exists c, m_spw m = Some c /\ cd_ok N c /\ zexpand c = spec_plain p_spw ps) /\
+  (exists c, m_tgt m = Some c /\ cd_ok N c /\ zexpand c = spec_plain p_tgt ps) /\
+  (exists c, m_sub_index m = Some c /\ cd_ok N c /\ zexpand c = spec_index p_sub ps) /\
+  (exists c, m_spw_index m = Some c /\ cd_ok N c /\ zexpand c = spec_index p_spw ps) /\
+  (exists c, m_tgt_index m = Some c /\ cd_ok N c /\ zexpand c = spec_index p_tgt ps) /\
+  (exists c, m_state m = Some c /\ cd_ok N c /\ zexpand c = spec_plain p_state ps) /\
+  (exists c, m_label m = Some c /\ cd_ok N c /\ zexpand c = spec_plain p_label ps) /\
+  (exists c, m_scan m = Some c /\ cd_ok N c /\ zexpand c = spec_running p_scan ps) /\
+  (exists c, m_cscan m = Some c /\ cd_ok N c /\ zexpand c = spec_running p_cscan ps) /\
+  m_keep0 m = Some (spec_keep0 ps) /\
+  (* the sensors written back into the parts: the part's own per-dump values, over the MERGED value list *)
+  Forall2 (fun p q => cd_ok (nT p) (p_tgt q) /\ zexpand (p_tgt q) = zexpand (p_tgt p) /\ uv (p_tgt q) = m_cat m) ps (m_parts m) /\
+  Forall2 (fun p q => cd_ok (nT p) (p_sub q) /\ zexpand (p_sub q) = zexpand (p_sub p) /\ uv (p_sub q) = m_subs m) ps (m_parts m) /\
+  Forall2 (fun p q => cd_ok (nT p) (p_spw q) /\ zexpand (p_spw q) = zexpand (p_spw p) /\ uv (p_spw q) = m_spws m) ps (m_parts m).
+Proof.
+  intros input ps m E OK H N. destruct (concat_open_facts input ps m E OK H).
+  repeat (split; [assumption|]). assumption.
+Qed.
+
+Lemma selected_sensor_both : forall ps (keep : list bool) (l : list Z),
+  length l = list_sum (map nT ps) -> length keep = list_sum (map nT ps) ->
+  selected_pieces ps keep (cut (map nT ps) l) = mask_sel keep l /\ concat (cut (map nT ps) keep) = keep.
+Proof. intros ps keep l L K. split; [apply selected_pieces_spec; assumption|apply cut_concat; assumption]. Qed.
+
+Lemma dummy_code_def : forall dt,
+  dummy_code dt = match snd (SensorCache.dummy_value None dt) with
+                  | SensorCache.VNum None => nan_code
+                  | SensorCache.VInt z => z
+                  | SensorCache.VEmptyStr => 0%Z
+                  | SensorCache.VFalse => 0%Z
+                  | _ => (-8888)%Z
+                  end.
+Proof. reflexivity. Qed.
